@@ -433,12 +433,11 @@ impl RdbEngine {
                     // Get value
                     #[cfg(ferrous_verif)]
                     crate::verif::sync_point("rdb_before_get");
-                    match storage.get(db_idx, &key)? {
-                        GetResult::Found(value) => {
+                    // Value and TTL are taken together, at one instant
+                    match storage.get_with_ttl(db_idx, &key)? {
+                        Some((value, ttl)) => {
                             #[cfg(ferrous_verif)]
                             crate::verif::sync_point("rdb_after_get");
-                            // Get TTL if any
-                            let ttl = storage.ttl(db_idx, &key)?;
                             #[cfg(ferrous_verif)]
                             crate::verif::sync_point("rdb_after_ttl");
                             
